@@ -5,6 +5,14 @@
 #include <stdlib.h>
 #include <string.h>
 #include "vp_native_alloc.h"
+/* The driver force-includes vp_native_alloc.h into EVERY unit (-include), i.e.
+ * before VP_NATIVE_RT is defined above, so the malloc -> vp_malloc macros are
+ * active here too and the wrappers below would call themselves (unbounded
+ * recursion = every replay that allocates "reproduced" as a stack overflow). */
+#undef malloc
+#undef calloc
+#undef realloc
+#undef free
 
 struct ent {
     char name[64];
